@@ -19,6 +19,17 @@ class ModelFn:
     def __init__(self, name, fn):
         self.name, self.fn = name, fn
 
+    def fvc_getattr(self, it, name):
+        if self.name == "dict" and name == "fromkeys":
+            def fromkeys(it_, keys, value=None):
+                d = _I().IDict()
+                for k in it_.iterate(keys):
+                    if it_.dict_find(d, k) < 0:
+                        it_.dict_set(d, k, value)
+                return d
+            return ModelFn("dict.fromkeys", fromkeys)
+        raise SymError(f"attribute '{name}' on {self.name}")
+
     def __repr__(self):
         return f"<model {self.name}>"
 
